@@ -40,7 +40,7 @@ func (sensor *FileSensor) GetValue() (float64, error) {
 	integer, err := util.ReadIntFromFile(filePath)
 	if err != nil {
 		ui.Warning("Unable to read int from file sensor: %s", filePath)
-		return 0, nil
+		return 0, err
 	}
 
 	result := float64(integer)
